@@ -403,6 +403,9 @@ func randField(r *rand.Rand, e gen.Env) field {
 		return fIP(n, a)
 	case 11:
 		a, _ := e.IP6(r)
+		if r.Intn(3) == 0 && a.Is6() && !a.Is4In6() {
+			a = a.WithZone(pick20(r, "eth0", "1", "wlp3s0", "en0")) // netip prints the zone of a scoped address
+		}
 		return fIP(n, a)
 	case 12:
 		a, _ := e.IP6(r)
@@ -443,6 +446,8 @@ func randField(r *rand.Rand, e gen.Env) field {
 		B string
 	}{r.Intn(100), n})
 }
+
+func pick20(r *rand.Rand, xs ...string) string { return xs[r.Intn(len(xs))] }
 
 func runC20(c *wk.Ctx) {
 	t := &c20{c: c}
